@@ -504,12 +504,12 @@ Section Sim.
     teq_frag c = true /\ plain_src c = true /\ goodA pl args1 c /\ goodA pl args2 c /\ liveP pl c.
 
   Lemma field_PP sf : In sf (def_sfields sd) ->
-    PP (sf_ty sf) /\ sf_type_name sf = true /\ sf_compact_attr sf = false.
+    PP (sf_ty sf) /\ sf_compact_attr sf = false.
   Proof.
     intros Hin. unfold teq_program_okb, teq_def_okb in Hprog. apply andb_prop in Hprog as [H1 H2].
     rewrite forallb_forall in H1, H2. pose proof (H1 sf Hin) as Hf. pose proof (H2 sf Hin) as Hlive.
-    unfold teq_field_okb in Hf. apply andb_prop in Hf as [Hf Hfr]. apply andb_prop in Hf as [Hf Hpl].
-    apply andb_prop in Hf as [Htn Hca]. apply negb_true_iff in Hca.
+    unfold teq_field_okb in Hf. apply andb_prop in Hf as [Hf Hfr]. apply andb_prop in Hf as [Hca Hpl].
+    apply negb_true_iff in Hca.
     assert (Hft : In (sf_ty sf) (def_field_types sd)).
     { unfold def_field_types. unfold def_sfields in Hin. destruct (sd_body sd) as [fs|vs].
       - apply in_map. exact Hin.
@@ -520,7 +520,7 @@ Section Sim.
       destruct (cf_inv _ _ _ Hcf) as (_ & _ & Hcomp). rewrite Hcan in Hcomp.
       destruct (Hcomp _ Hft) as (_ & Hnl).
       exact (Hnl K (spine_components defs (src_size (sf_ty sf)) (sf_ty sf) (le_n _) K HK) Hp _ Hlive' eq_refl). }
-    split; [|split; assumption].
+    split; [|assumption].
     split; [exact Hfr|]. split; [exact Hpl|]. split; [apply Hgood; assumption|]. split; [apply Hgood; assumption|].
     intros i Hi. pose proof (params_live_spine pl (src_size (sf_ty sf)) (sf_ty sf) (le_n _) Hlive _ Hi) as Hli.
     cbn [params_live] in Hli. destruct (nth_error pl i) as [[nm [|]]|]; try discriminate. eauto.
@@ -893,11 +893,14 @@ Section Sim.
     good_res st (compare_fields_with (fun x y st0 => teq r fuel x G1 y G2 st0) G1 G2 f1 f2 st).
   Proof.
     intros Hin (Hn1 & Hlab1 & Htn1) (Hn2 & Hlab2 & Htn2) HI Hv Hfu.
-    destruct (field_PP sf Hin) as (HPP & Htn & Hca). rewrite Htn in Htn1, Htn2.
+    destruct (field_PP sf Hin) as (HPP & Hca).
     unfold lab in Hlab1, Hlab2. rewrite Hca in Hlab1, Hlab2. cbv zeta in Hlab1, Hlab2.
     change (L (f_ty f1) = Some (cs args1 (sf_ty sf))) in Hlab1.
     change (L (f_ty f2) = Some (cs args2 (sf_ty sf))) in Hlab2.
     unfold compare_fields_with. rewrite Hn1, Hn2, opt_str_eqb_refl. cbn [negb]. cbv zeta. rewrite Htn1, Htn2.
+    destruct (sf_type_name sf).
+    2:{ (* no recorded type name: always compared structurally *)
+        apply (sim (src_size (sf_ty sf)) (sf_ty sf) (le_n _) HPP fuel (f_ty f1) (f_ty f2)); auto using AL_base. }
     unfold G1, G2. rewrite (idx_GL _ P1 _ (GL_base P1)), (idx_GL _ P2 _ (GL_base P2)).
     destruct (is_param (sf_ty sf)) eqn:Ep.
     - destruct (sf_ty sf) as [i| | | | | | | | | | | | | | |] eqn:Ety; try discriminate Ep.
